@@ -1,6 +1,7 @@
 //! Correspondence harness: runs the real ndarray-stats routines on case lines
 //! read from stdin and prints one canonical result line per case.
 mod common;
+mod r_hist;
 mod r_sort;
 
 use common::Toks;
@@ -14,6 +15,7 @@ pub fn guarded<R>(f: impl FnOnce() -> R) -> Option<R> {
 fn dispatch(routine: &str, t: &mut Toks) -> String {
     match routine {
         "partition" | "select" | "select_many" => r_sort::run(routine, t),
+        "bins" | "grid" | "hist" | "histm" => r_hist::run(routine, t),
         "profile" => {
             if cfg!(debug_assertions) {
                 "OK debug".to_string()
